@@ -267,6 +267,12 @@ Proof.
     + destruct (_ =? _); [|reflexivity]. rewrite fresh_list_app, In_. reflexivity.
   - destruct (zmem _ _); [reflexivity|]. destruct (zmem _ _); [reflexivity|]. destruct (_ =? _); reflexivity.
   - destruct (zmem _ _); [reflexivity|]. destruct (zmem _ _); [reflexivity|]. destruct (_ =? _); reflexivity.
+  - assert (In_ : fresh_list (map (fun kv => ASet [A (resolve_alias h r name)] (fst kv) (new_list (snd kv))) kvss) = true)
+      by (apply fresh_map; intros kv; reflexivity).
+    destruct (zmem _ _); [reflexivity|]. destruct (zmem _ _).
+    + change (fresh_list ([ASet [] (A (resolve_alias h r name)) (SFresh KDict [])] ++ map (fun kv => ASet [A (resolve_alias h r name)] (fst kv) (new_list (snd kv))) kvss) = true).
+      rewrite fresh_list_app, In_. reflexivity.
+    + destruct (_ =? _); [|reflexivity]. rewrite fresh_list_app, In_. reflexivity.
   - destruct (zmem _ _); [destruct (Nat.eqb _ _)|]; reflexivity.
 Qed.
 
